@@ -60,7 +60,7 @@ TLC_STATS = re.compile(r"(\d+) states generated, (\d+) distinct states found")
 
 
 def tlc(module, cfg, name, workers=None, timeout=900, simulate=None, depth=None, env=None,
-        java_opts=None, coverage=False, extra=None, deque=False, seed_arg=None):
+        java_opts=None, coverage=False, extra=None, deque=False, seed_arg=None, out_path=None):
     """Run TLC; returns dict(rc, out, generated, distinct, violated, error)."""
     meta = workdir("tlc_" + name)
     cmd = ["timeout", str(timeout), "tlc", "-metadir", meta, "-cleanup", "-noGenerateSpecTE",
@@ -87,8 +87,19 @@ def tlc(module, cfg, name, workers=None, timeout=900, simulate=None, depth=None,
     if env:
         e.update(env)
     t0 = time.time()
-    p = subprocess.run(cmd, cwd=SPEC, stdout=subprocess.PIPE, stderr=subprocess.STDOUT, text=True, env=e)
-    out = p.stdout
+    if out_path:
+        # large outputs (one REPLAY line per behaviour): stream to a file, keep only the non-REPLAY lines in memory
+        with open(out_path, "w") as fo:
+            p = subprocess.run(cmd, cwd=SPEC, stdout=fo, stderr=subprocess.STDOUT, text=True, env=e)
+        keep = []
+        with open(out_path) as fi:
+            for line in fi:
+                if '<<"REPLAY", ' not in line:
+                    keep.append(line)
+        out = "".join(keep)
+    else:
+        p = subprocess.run(cmd, cwd=SPEC, stdout=subprocess.PIPE, stderr=subprocess.STDOUT, text=True, env=e)
+        out = p.stdout
     shutil.rmtree(meta, ignore_errors=True)
     res = {"rc": p.returncode, "out": out, "generated": 0, "distinct": 0, "violated": None,
            "error": None, "wall": time.time() - t0, "cmd": " ".join(cmd)}
